@@ -167,7 +167,8 @@ impl StateCheck for C19 {
                 }
             }
             if let Some(a) = l.strip_prefix("# ARG:") {
-                args.extend(a.split('\u{1f}').filter(|t| !t.is_empty()).map(String::from));
+                // (an empty argument is written as U+2400 in the state text)
+                args.extend(a.split('\u{1f}').filter(|t| !t.is_empty()).map(|t| if t == "\u{2400}" { String::new() } else { t.to_string() }));
             }
         }
         if p.is_empty() {
@@ -335,7 +336,7 @@ const US: char = '\u{1f}';
 fn opt(name: &str, param: &str, state: &str, args: &[&str]) -> Letter {
     let mut l = vec![Line::Raw(format!("# P:{param}={state}"))];
     if !args.is_empty() {
-        l.push(Line::Raw(format!("# ARG:{}", args.join(&US.to_string()))));
+        l.push(Line::Raw(format!("# ARG:{}", args.iter().map(|a| if a.is_empty() { "\u{2400}" } else { *a }).collect::<Vec<_>>().join(&US.to_string()))));
     }
     let _ = name;
     Letter::many(l)
@@ -380,9 +381,9 @@ fn domains() -> Domains {
         }
     };
     Domains {
-        area_opt: vec![opt("", "area_opt", "absent", &[]), o("area_opt", "good", "50", "-a"), o("area_opt", "good", "0.0011", "-a"), o("area_opt", "good", "1", "-a"), o("area_opt", "good", "1.0", "--arearef="), o("area_opt", "bad", "0.001", "-a"), o("area_opt", "bad", "0", "-a"), o("area_opt", "bad", "-5", "--arearef="), o("area_opt", "bad", "abc", "-a"), o("area_opt", "bad", "NaN", "-a"), o("area_opt", "bad", "1 000", "-a"), o("area_opt", "bad", "100 m2", "--arearef=")],
+        area_opt: vec![opt("", "area_opt", "absent", &[]), o("area_opt", "good", "50", "-a"), o("area_opt", "good", "0.0011", "-a"), o("area_opt", "good", "1", "-a"), o("area_opt", "good", "1.0", "--arearef="), o("area_opt", "bad", "0.001", "-a"), o("area_opt", "bad", "0", "-a"), o("area_opt", "bad", "-5", "--arearef="), o("area_opt", "bad", "abc", "-a"), o("area_opt", "bad", "", "-a"), o("area_opt", "bad", " ", "--arearef="), o("area_opt", "bad", "NaN", "-a"), o("area_opt", "bad", "1 000", "-a"), o("area_opt", "bad", "100 m2", "--arearef=")],
         area_meta: vec![meta("area_meta", "absent", "", None), meta("area_meta", "good:200.5", "CTE_AREAREF", Some("200.5")), meta("area_meta", "good:50", "CTE_AREAREF", Some("50")), legacy("area_meta", "good:75.25", "#CTE_Area_ref: 75.25"), legacy("area_meta", "good:1e2", "  #META   CTE_AREAREF :  1e2  "), meta("area_meta", "good:50.0004", "CTE_AREAREF", Some("50.0004")), meta("area_meta", "bad:abc", "CTE_AREAREF", Some("abc")), meta("area_meta", "bad:0", "CTE_AREAREF", Some("0")), legacy("area_meta", "good:60", "#CTE_Area_ref: 60\n#META CTE_AREAREF: 60"), meta("area_meta", "bad:100 m2", "CTE_AREAREF", Some("100 m2")), meta("area_meta", "bad:1 000", "CTE_AREAREF", Some("1 000")), meta("area_meta", "bad:nan", "CTE_AREAREF", Some("nan")), meta("area_meta", "bad:1,5", "CTE_AREAREF", Some("1,5"))],
-        k_opt: vec![opt("", "k_opt", "absent", &[]), o("k_opt", "good", "0.5", "-k"), o("k_opt", "good", "0", "-k"), o("k_opt", "good", "1", "-k"), o("k_opt", "bad", "1.01", "-k"), o("k_opt", "bad", "-0.1", "--kexp="), o("k_opt", "bad", "x", "-k"), o("k_opt", "bad", "0.5 x", "-k"), o("k_opt", "bad", "NaN", "-k"), o("k_opt", "bad", "0,5", "--kexp=")],
+        k_opt: vec![opt("", "k_opt", "absent", &[]), o("k_opt", "good", "0.5", "-k"), o("k_opt", "good", "0", "-k"), o("k_opt", "good", "1", "-k"), o("k_opt", "bad", "1.01", "-k"), o("k_opt", "bad", "-0.1", "--kexp="), o("k_opt", "bad", "x", "-k"), o("k_opt", "bad", "", "-k"), o("k_opt", "bad", " ", "--kexp="), o("k_opt", "bad", "0.5 x", "-k"), o("k_opt", "bad", "NaN", "-k"), o("k_opt", "bad", "0,5", "--kexp=")],
         k_meta: vec![meta("k_meta", "absent", "", None), meta("k_meta", "good:0.7", "CTE_KEXP", Some("0.7")), meta("k_meta", "good:0.25", "CTE_KEXP", Some("0.25")), meta("k_meta", "good:0.5", "CTE_KEXP", Some("0.5")), legacy("k_meta", "good:0.3", "#CTE_kexp: 0.3"), meta("k_meta", "good:0", "CTE_KEXP", Some("0")), meta("k_meta", "good:1.0", "CTE_KEXP", Some("1.0")), meta("k_meta", "bad:2", "CTE_KEXP", Some("2")), meta("k_meta", "bad:x", "CTE_KEXP", Some("x")), legacy("k_meta", "good:0.4", "#META CTE_KEXP: 0.4\n#CTE_kexp: 0.4"), meta("k_meta", "bad:0.5 x", "CTE_KEXP", Some("0.5 x")), meta("k_meta", "bad:0,5", "CTE_KEXP", Some("0,5")), meta("k_meta", "bad:NaN", "CTE_KEXP", Some("NaN"))],
         loc_opt: vec![opt("", "loc_opt", "absent", &[]), o("loc_opt", "good", "PENINSULA", "-l"), o("loc_opt", "good", "CANARIAS", "-l"), o("loc_opt", "bad", "MARTE", "-l")],
         loc_meta: vec![meta("loc_meta", "absent", "", None), meta("loc_meta", "good:BALEARES", "CTE_LOCALIZACION", Some("BALEARES")), meta("loc_meta", "good:PENINSULA", "CTE_LOCALIZACION", Some("PENINSULA")), legacy("loc_meta", "good:CEUTAMELILLA", "#CTE_Localizacion: CEUTAMELILLA"), meta("loc_meta", "bad:LUNA", "CTE_LOCALIZACION", Some("LUNA"))],
